@@ -29,7 +29,7 @@ func Check() *engine.Check {
 			"x every truth assignment of the rules' additional conditions x every request path of length 0-3 over {a,b,ab,c,:p0,*r,a:b,empty} " +
 			"with/without trailing slash, looked up in the real radixtree and compared with a reference matcher; rule level: the same through " +
 			"rule factory + repository FindRule with method conditions, two rule sets in both load orders, with and without default rule, each " +
-			"configuration loaded directly, reached by an update from a version with a changed first rule, and with a second (never requested) route per rule. " +
+			"configuration loaded directly, reached by an update from a version with a changed first rule, with a second (never requested) route per rule, and with a first route of the same expression whose path_params condition never holds. " +
 			"A case is non-trivial when at least two expressions of the set match the path or a condition of a matching expression is false " +
 			"(specificity, order or backtracking decided the outcome); distinct = distinct (sorted expression set, flags, truth, path, outcome).",
 		Assumptions: []string{
